@@ -68,6 +68,13 @@ struct RunCtx {
     bool snap_deep{true};
     std::unordered_map<const void *, std::string> live_graphs;  // graph memory -> gid while started
     std::unordered_map<std::string, int> gen;                    // path -> generation counter
+    // real-time runs
+    std::map<std::string, std::shared_ptr<void>> senders;        // push source id -> PushSourceSender (shared_ptr<PushSourceSender>)
+    std::atomic<int> senders_ready{0};
+    std::atomic<bool> latched{false};
+    std::atomic<bool> release_latch{false};
+    std::atomic<std::int64_t> seq{0};                            // global happens-before counter
+    std::atomic<std::int64_t> delivered{0};                      // values seen by collecting sinks
     std::string gid_of(const GraphView &g);
     void add(std::string s) { std::lock_guard<std::mutex> l(mu); trace.push_back(std::move(s)); }
 };
@@ -131,6 +138,7 @@ WiringPortRef resolve_ref(Scope &sc, const JV &ref);
 void wire_stmts(Scope &sc, const JV &stmts);
 // harness node factories (hv_nodes.cpp)
 WiringPortRef wire_src(Scope &sc, const JV &st);
+WiringPortRef wire_push_src(Scope &sc, const JV &st);
 WiringPortRef wire_node(Scope &sc, const JV &st, std::vector<WiringPortRef> ins);
 // graph dump
 void dump_graph_builder(std::string &out, const GraphBuilder &gb, int depth);
